@@ -299,6 +299,22 @@ def nondet_inventory():
     return sorted(set(containers)), sorted(set(reads)), sorted(env_names), versions
 
 
+def hand_written_impls():
+    """types of src/*.rs with a hand-written `Hash` impl, and those with a hand-written `PartialEq` impl.  A type that is
+    the key of a (randomly seeded) hash container must hash consistently with its equality; a hand-written `Hash` next
+    to a *derived* `PartialEq` is how the two drifted apart in DFA / InpInternPool (repair 131db37)."""
+    hashes, eqs = [], []
+    for fn in sorted(os.listdir(os.path.join(REPO, "src"))):
+        if not fn.endswith(".rs"):
+            continue
+        code = re.sub(r"//[^\n]*", "", read("src/" + fn))
+        for m in re.finditer(r"impl(?:<[^>]*>)?\s+(?:std::hash::|core::hash::)?Hash\s+for\s+(\w+)", code):
+            hashes.append((fn, m.group(1)))
+        for m in re.finditer(r"impl(?:<[^>]*>)?\s+(?:std::cmp::|core::cmp::)?PartialEq(?:<[^>]*>)?\s+for\s+(\w+)", code):
+            eqs.append((fn, m.group(1)))
+    return sorted(set(hashes)), sorted(set(eqs))
+
+
 def lean_chain(chain):
     return "[" + ", ".join(f"({lean_char(p)}, {lean_chars(r)})" for p, r in chain) + "]"
 
@@ -337,6 +353,15 @@ def generate():
     out.append("/-- versions in Cargo.lock of the crates whose hashers decide iteration order -/")
     out.append("def lockVersions : List (String × String) := [")
     out.append(",\n".join(f'  ("{c}", "{v}")' for c, v in versions))
+    out.append("]")
+    hashes, eqs = hand_written_impls()
+    out.append("/-- types with a hand-written `Hash` impl: (file, type) -/")
+    out.append("def handHash : List (String × String) := [")
+    out.append(",\n".join(f'  ("{f}", "{t}")' for f, t in hashes))
+    out.append("]")
+    out.append("/-- types with a hand-written `PartialEq` impl: (file, type) -/")
+    out.append("def handEq : List (String × String) := [")
+    out.append(",\n".join(f'  ("{f}", "{t}")' for f, t in eqs))
     out.append("]")
     out.append("end Complgen.Gen")
     write("Nondet.lean", "\n".join(out) + "\n")
